@@ -6,6 +6,12 @@ import (
 	"strings"
 )
 
+// NilDefault is the value stored in a function's defaults for a parameter
+// whose default value is nil. A plain nil entry means "no default".
+type NilDefault struct{}
+
+func (NilDefault) String() string { return "nil" }
+
 type Function struct {
 	id         string
 	name       string
